@@ -205,7 +205,7 @@ def gen_plan(rng, text, B, seg_term):
     return {'kind': 'cuts', 'cuts': cuts, 'tail': rng.choice(['exact', 'exact', 1, 7, 4096])}
 
 
-def generate(rng, tier, run):
+def generate(rng, tier, run, seed=0):
     B = rng.choice(BUFS)
     kinds = []
     nconf = rng.choice([2, 3, 3, 4])
